@@ -97,10 +97,48 @@ pub fn execute(scripts: &[Vec<Step>], schedule: &[u8], sigs: &[Vec<i128>]) -> Ve
 fn enc_step(s: Step) -> String { match s { Step::Set(m) => format!("S{}", m), Step::Get => "G".into(), Step::Op(k) => format!("O{}", k) } }
 fn dec_step(s: &str) -> Step { match &s[..1] { "S" => Step::Set(s[1..].parse().unwrap()), "G" => Step::Get, _ => Step::Op(s[1..].parse().unwrap()) } }
 
-/// Executor process: reads "scripts;schedule,schedule,..." lines, executes every
-/// schedule on fresh OS threads of THIS process and answers with one line of
-/// hex-encoded observations per request. One executor per exploring worker:
-/// thread creation in separate processes does not contend on one address space.
+/// Run `f` in a forked child of this (single-threaded) executor process and
+/// return the bytes it produces. Every schedule thus starts from the pristine
+/// process state (no thread-local AND no process-global leftovers of earlier
+/// schedules), which is what makes the search stateless.
+fn in_fork(f: impl FnOnce() -> Vec<u8>) -> Vec<u8> {
+    unsafe {
+        let mut fds = [0i32; 2];
+        assert_eq!(libc::pipe(fds.as_mut_ptr()), 0, "pipe");
+        let pid = libc::fork();
+        assert!(pid >= 0, "fork");
+        if pid == 0 {
+            libc::close(fds[0]);
+            let out = std::panic::catch_unwind(std::panic::AssertUnwindSafe(f)).unwrap_or_else(|_| vec![0xEE]);
+            let mut off = 0;
+            while off < out.len() {
+                let n = libc::write(fds[1], out[off..].as_ptr() as *const libc::c_void, out.len() - off);
+                if n <= 0 { break; }
+                off += n as usize;
+            }
+            libc::_exit(0);
+        }
+        libc::close(fds[1]);
+        let mut buf = Vec::new();
+        let mut tmp = [0u8; 256];
+        loop {
+            let n = libc::read(fds[0], tmp.as_mut_ptr() as *mut libc::c_void, tmp.len());
+            if n <= 0 { break; }
+            buf.extend_from_slice(&tmp[..n as usize]);
+        }
+        libc::close(fds[0]);
+        let mut status = 0;
+        libc::waitpid(pid, &mut status, 0);
+        buf
+    }
+}
+
+/// Executor process: reads request lines
+///   X;scripts;schedule,schedule,...   execute every schedule (each in a forked child, on fresh OS threads)
+///   L;m,m2,k                          execute the lifecycle history (in a forked child)
+/// and answers with one line of hex-encoded observations per request. One
+/// executor per exploring worker: thread creation in separate processes does
+/// not contend on one address space.
 pub fn executor_main() {
     use std::io::{BufRead, Write};
     let sigs: Vec<Vec<i128>> = ALL_MODES.iter().map(|m| signature(*m)).collect();
@@ -110,14 +148,21 @@ pub fn executor_main() {
     for line in stdin.lock().lines() {
         let line = match line { Ok(l) => l, Err(_) => break };
         if line.is_empty() { continue; }
-        let (sc, sch) = line.split_once(';').unwrap();
-        let scripts: Vec<Vec<Step>> = sc.split('|').map(|t| t.split(',').map(dec_step).collect()).collect();
         let mut resp = String::new();
-        for s in sch.split(',') {
-            let schedule: Vec<u8> = s.bytes().map(|b| b - b'0').collect();
-            let obs = execute(&scripts, &schedule, &sigs);
+        if let Some(rest) = line.strip_prefix("L;") {
+            let v: Vec<u8> = rest.split(',').map(|x| x.parse().unwrap()).collect();
+            let obs = in_fork(|| lifecycle_exec(&sigs, v[0], v[1], v[2]));
             for o in obs { resp.push_str(&format!("{:02x}", o)); }
-            resp.push(',');
+        } else {
+            let rest = line.strip_prefix("X;").unwrap_or(&line);
+            let (sc, sch) = rest.split_once(';').unwrap();
+            let scripts: Vec<Vec<Step>> = sc.split('|').map(|t| t.split(',').map(dec_step).collect()).collect();
+            for s in sch.split(',') {
+                let schedule: Vec<u8> = s.bytes().map(|b| b - b'0').collect();
+                let obs = in_fork(|| execute(&scripts, &schedule, &sigs));
+                for o in obs { resp.push_str(&format!("{:02x}", o)); }
+                resp.push(',');
+            }
         }
         writeln!(out, "{}", resp).unwrap();
         out.flush().unwrap();
@@ -139,19 +184,35 @@ impl Executor {
         use std::io::{BufRead, Write};
         let sc: Vec<String> = scripts.iter().map(|t| t.iter().map(|s| enc_step(*s)).collect::<Vec<_>>().join(",")).collect();
         let sch: Vec<String> = schedules.iter().map(|s| s.iter().map(|b| (b'0' + b) as char).collect()).collect();
-        writeln!(self.stdin, "{};{}", sc.join("|"), sch.join(",")).expect("executor stdin");
+        writeln!(self.stdin, "X;{};{}", sc.join("|"), sch.join(",")).expect("executor stdin");
         self.stdin.flush().unwrap();
         let mut line = String::new();
         self.stdout.read_line(&mut line).expect("executor stdout");
         let res: Vec<Vec<u8>> = line.trim().split(',').filter(|s| !s.is_empty()).map(|h| (0..h.len() / 2).map(|i| u8::from_str_radix(&h[2 * i..2 * i + 2], 16).unwrap()).collect()).collect();
         assert_eq!(res.len(), schedules.len(), "executor answered {} of {} schedules", res.len(), schedules.len());
+        for (r, s) in res.iter().zip(schedules.iter()) { assert_eq!(r.len(), s.len(), "executor: incomplete observation vector"); }
         res
+    }
+    pub fn lifecycle(&mut self, m: u8, m2: u8, k: u8) -> Vec<u8> {
+        use std::io::{BufRead, Write};
+        writeln!(self.stdin, "L;{},{},{}", m, m2, k).expect("executor stdin");
+        self.stdin.flush().unwrap();
+        let mut line = String::new();
+        self.stdout.read_line(&mut line).expect("executor stdout");
+        let h = line.trim();
+        let v: Vec<u8> = (0..h.len() / 2).map(|i| u8::from_str_radix(&h[2 * i..2 * i + 2], 16).unwrap()).collect();
+        assert_eq!(v.len(), 8, "executor: incomplete lifecycle observation");
+        v
     }
 }
 
 impl Drop for Executor { fn drop(&mut self) { let _ = self.child.kill(); let _ = self.child.wait(); } }
 
 thread_local! { static EXEC: std::cell::RefCell<Option<Executor>> = const { std::cell::RefCell::new(None) }; }
+
+fn run_lifecycle(m: u8, m2: u8, k: u8) -> Vec<u8> {
+    EXEC.with(|e| { let mut e = e.borrow_mut(); if e.is_none() { *e = Some(Executor::spawn()); } e.as_mut().unwrap().lifecycle(m, m2, k) })
+}
 
 fn run_batch(scripts: &[Vec<Step>], schedules: &[Vec<u8>]) -> Vec<Vec<u8>> {
     EXEC.with(|e| { let mut e = e.borrow_mut(); if e.is_none() { *e = Some(Executor::spawn()); } e.as_mut().unwrap().run(scripts, schedules) })
@@ -178,8 +239,8 @@ fn mname(m: u8) -> String { if m == 255 { "<no mode matches>".into() } else { mo
 
 /// Run one (scripts, schedule) against the per-thread reference model.
 /// Returns (states visited, transitions) and records violations.
-fn check_schedule(family: &str, scripts: &[Vec<Step>], schedule: &[u8], sigs: &[Vec<i128>], l: &mut Local, states: &mut HashSet<Vec<u8>>) {
-    let obs = execute(scripts, schedule, sigs);
+fn check_schedule(family: &str, scripts: &[Vec<Step>], schedule: &[u8], _sigs: &[Vec<i128>], l: &mut Local, states: &mut HashSet<Vec<u8>>) {
+    let obs = run_batch(scripts, &[schedule.to_vec()]).pop().unwrap();
     check_obs(family, scripts, schedule, &obs, l, states)
 }
 
@@ -237,24 +298,17 @@ pub fn replay(w: &Value) -> Vec<(String, String)> {
     run.violations().into_iter().map(|(s, r)| (s, r.detail)).collect()
 }
 
-/// F3: histories with thread death, spawn order and inheritance.
-fn lifecycle(sigs: &[Vec<i128>], l: &mut Local, states: &mut HashSet<Vec<u8>>, m: u8, m2: u8, k: u8) {
-    let w = json!({"family": "F3", "m": m, "m2": m2, "k": k});
-    let bad = |l: &mut Local, what: &str, got: u8, want: u8| {
-        l.violation(format!("F3 lifecycle | {} | observed another mode than RoundHalfEven/own", what), || (format!("{}: observed {} expected {} (m={}, m2={}, op={})", what, mname(got), mname(want), mname(m), mname(m2), OP_NAMES[k as usize]), w.clone()));
-    };
-    // (i) T1 sets m and is joined; T2 is spawned afterwards (TLS slot / thread id reuse): must start with HalfEven
+/// F3: histories with thread death, spawn order and inheritance: the part
+/// that runs the real threads; returns [g, o, g0, o0, o1, pg, po, pg2].
+fn lifecycle_exec(sigs: &[Vec<i128>], m: u8, m2: u8, k: u8) -> Vec<u8> {
+    // (i) T1 sets m and is joined; T2 is spawned afterwards (TLS slot / thread id reuse)
     let sigs1 = sigs.to_vec();
     std::thread::spawn(move || { exec_step(Step::Set(m), &sigs1); exec_step(Step::Op(k), &sigs1) }).join().unwrap();
     let sigs2 = sigs.to_vec();
     let (g, o) = std::thread::spawn(move || (exec_step(Step::Get, &sigs2), exec_step(Step::Op(k), &sigs2))).join().unwrap();
-    l.evals += 2;
-    states.insert(vec![1, m, 5]);
-    if g != 5 { bad(l, "thread spawned after another thread set its mode and died: default()", g, 5); }
-    if o != 5 { bad(l, "thread spawned after another thread set its mode and died: operation", o, 5); }
     // (ii) a parent sets m, then spawns a child: no inheritance; child sets m2; parent still sees m
     let sigs3 = sigs.to_vec();
-    let res = std::thread::spawn(move || {
+    let ((g0, o0, o1), pg, po, pg2) = std::thread::spawn(move || {
         exec_step(Step::Set(m), &sigs3);
         let sigs4 = sigs3.clone();
         let child = std::thread::spawn(move || {
@@ -272,9 +326,21 @@ fn lifecycle(sigs: &[Vec<i128>], l: &mut Local, states: &mut HashSet<Vec<u8>>, m
         let pg2 = exec_step(Step::Get, &sigs3);
         (child, pg, po, pg2)
     }).join().unwrap();
-    l.evals += 6;
+    vec![g, o, g0, o0, o1, pg, po, pg2]
+}
+
+fn lifecycle(_sigs: &[Vec<i128>], l: &mut Local, states: &mut HashSet<Vec<u8>>, m: u8, m2: u8, k: u8) {
+    let w = json!({"family": "F3", "m": m, "m2": m2, "k": k});
+    let bad = |l: &mut Local, what: &str, got: u8, want: u8| {
+        l.violation(format!("F3 lifecycle | {} | observed another mode than RoundHalfEven/own", what), || (format!("{}: observed {} expected {} (m={}, m2={}, op={})", what, mname(got), mname(want), mname(m), mname(m2), OP_NAMES[k as usize]), w.clone()));
+    };
+    let v = run_lifecycle(m, m2, k);
+    let (g, o, g0, o0, o1, pg, po, pg2) = (v[0], v[1], v[2], v[3], v[4], v[5], v[6], v[7]);
+    l.evals += 8;
+    states.insert(vec![1, m, 5]);
     states.insert(vec![2, m, m2]);
-    let ((g0, o0, o1), pg, po, pg2) = res;
+    if g != 5 { bad(l, "thread spawned after another thread set its mode and died: default()", g, 5); }
+    if o != 5 { bad(l, "thread spawned after another thread set its mode and died: operation", o, 5); }
     if g0 != 5 { bad(l, "child spawned by a thread with a non-default mode: default()", g0, 5); }
     if o0 != 5 { bad(l, "child spawned by a thread with a non-default mode: operation", o0, 5); }
     if o1 != m2 { bad(l, "child after its own set_default: operation", o1, m2); }
@@ -297,8 +363,7 @@ pub fn run(tier: Tier) -> i32 {
     for i in 0..8 { for j in 0..i { assert!(sigs[i] != sigs[j], "probe vector does not separate {} and {}", i, j); } }
     let mut selfcheck_ok = true;
     for m in 0..8u8 { for k in 0..7u8 {
-        let sg = sigs.clone();
-        let o = std::thread::spawn(move || { exec_step(Step::Set(m), &sg); exec_step(Step::Op(k), &sg) }).join().unwrap();
+        let o = run_batch(&[vec![Step::Set(m), Step::Op(k)]], &[vec![0, 0]])[0][1];
         if o != m {
             selfcheck_ok = false;
             run.seq(|l| l.violation(format!("single thread | Op({}) | operation does not round with the mode set on its own thread", OP_NAMES[k as usize]), || (format!("mode {} set, Op({}) behaves like {}", mname(m), OP_NAMES[k as usize], mname(o)), json!({"family": "F1", "scripts": [[["set", m], ["op", k]]], "schedule": [0, 0]}))));
@@ -386,8 +451,8 @@ pub fn run(tier: Tier) -> i32 {
 
     // determinism of the harness: one schedule executed twice gives identical observations
     let scripts = vec![vec![Step::Set(7), Step::Op(0), Step::Get], vec![Step::Op(3), Step::Set(3), Step::Op(6)]];
-    let o1 = execute(&scripts, &il2[7], &sigs);
-    let o2 = execute(&scripts, &il2[7], &sigs);
+    let o1 = run_batch(&scripts, &[il2[7].clone()]);
+    let o2 = run_batch(&scripts, &[il2[7].clone()]);
     assert_eq!(o1, o2, "replaying one schedule twice must give identical observations");
 
     let n_states = all_states.lock().unwrap().len() as u64;
